@@ -124,8 +124,13 @@ Denote(segs, ty) ==
                IF r.e # "" THEN r
                ELSE AOk({<<ElemStep(sg.es[i])>> \o p : i \in 1..Len(sg.es), p \in r.ps})
 
-DenoteAll(exprs) == [i \in 1..Len(exprs) |-> Denote(exprs[i], RootTy)]
-PathSet(exprs) == UNION {DenoteAll(exprs)[i].ps : i \in 1..Len(exprs)}
+\* denotations of the alphabet and of the PathInMask queries (state independent, evaluated once)
+AlphaDen == [i \in 1..Len(Alphabet) |-> Denote(Alphabet[i], RootTy)]
+PimsDen == [i \in 1..Len(Pims) |-> Denote(Pims[i], RootTy)]
+\* of a list given as indices into the alphabet
+DenoteAll(h) == [i \in 1..Len(h) |-> AlphaDen[h[i]]]
+PathSetD(d) == UNION {d[i].ps : i \in 1..Len(d)}
+PathSet(h) == PathSetD(DenoteAll(h))
 
 (* Two paths conflict when, below a common prefix, one has '*' where the   *)
 (* other has an explicit field / index / key, or when one is a proper      *)
@@ -146,13 +151,13 @@ ConflictKinds(M) == (IF \E p, q \in M : StarConflict(p, q) THEN {"star"} ELSE {}
 (* Outcome class of a list: "E" = the library must return an error,        *)
 (* "ok" = it must build a mask that answers as prescribed below, "?" =     *)
 (* either (conflict with '*', or outside the statement).                   *)
-OutcomeA(exprs) ==
-  LET d == DenoteAll(exprs) IN
-  IF \E i \in 1..Len(exprs) : d[i].e \notin {"", "?"} THEN "E"
-  ELSE IF \E i \in 1..Len(exprs) : d[i].e = "?" THEN "?"
-  ELSE IF ConflictIn(PathSet(exprs)) THEN "?"
+OutcomeD(d) ==
+  IF \E i \in 1..Len(d) : d[i].e \notin {"", "?"} THEN "E"
+  ELSE IF \E i \in 1..Len(d) : d[i].e = "?" THEN "?"
+  ELSE IF ConflictIn(PathSetD(d)) THEN "?"
   ELSE "ok"
-ErrKindsA(exprs) == {DenoteAll(exprs)[i].e : i \in 1..Len(exprs)} \ {""}
+OutcomeA(h) == OutcomeD(DenoteAll(h))
+ErrKindsD(d) == {d[i].e : i \in 1..Len(d)} \ {""}
 
 \* p agrees with position pos on its first n steps ('*' agrees with every sibling)
 Matches(p, pos, n) == \A j \in 1..n : p[j].k = "*" \/ p[j] = pos[j]
@@ -191,7 +196,8 @@ WalkA(M, black, pos) == WalkAFrom(M, black, pos, 1)
 (* which is meant; same for the empty mask).  A '*' in the query asks for  *)
 (* all siblings, which only a '*' (or a complete prefix) in the mask gives.*)
 InMaskW(M, sp) == \E p \in M : \A j \in 1..Min2(Len(p), Len(sp)) : p[j].k = "*" \/ p[j] = sp[j]
-PimA(M, q) == LET d == Denote(q, RootTy) IN d.e = "" /\ \A sp \in d.ps : InMaskW(M, sp)
+PimAD(M, d) == d.e = "" /\ \A sp \in d.ps : InMaskW(M, sp)
+PimA(M, q) == PimAD(M, Denote(q, RootTy))
 
 ----------------------------------------------------------------------------
 (***************************************************************************)
@@ -455,7 +461,6 @@ VARIABLES mode,   \* "W" | "B"
           berr    \* "" or the error that ended the call (layer B)
 vars == <<mode, hist, trie, berr>>
 
-Exprs(h) == [i \in 1..Len(h) |-> Alphabet[h[i]]]
 
 Init == /\ mode \in {"W", "B"}
         /\ hist = <<>>
@@ -474,7 +479,8 @@ Spec == Init /\ [][Next]_vars
 \* by an operator at every reference.)
 JoinWalksA(M, black) == LET W == Walks IN [i \in 1..Len(W) |-> WalkA(M, black, W[i])]
 JoinWalksB(n) == LET W == Walks IN [i \in 1..Len(W) |-> WalkB(n, W[i])]
-JoinPimsA(M) == LET P == Pims IN [i \in 1..Len(P) |-> IF PimA(M, P[i]) THEN 1 ELSE 0]
+JoinPimsAD(M, D) == [i \in 1..Len(D) |-> IF PimAD(M, D[i]) THEN 1 ELSE 0]
+JoinPimsA(M) == LET D == PimsDen IN JoinPimsAD(M, D)
 JoinPimsB(n) == LET P == Pims IN [i \in 1..Len(P) |-> LET r == PimB(n, P[i]) IN IF r = "1" THEN 1 ELSE IF r = "0" THEN 0 ELSE 4]
 
 AllCode(b) == IF b THEN 3 ELSE 2
@@ -487,9 +493,8 @@ RefinesWith(oa, aall, aw, ap, ball, bw, bp) ==
     [] oa = "ok" -> berr = "" /\ ball = aall /\ bw = aw /\ (ap # <<>> => bp = ap)
     [] OTHER -> TRUE
 RefinesHere ==
-  LET ex == Exprs(hist)
-      M == PathSet(ex)
-  IN RefinesWith(OutcomeA(ex), AllCode(AllAt(M, <<>>)), JoinWalksA(M, mode = "B"),
+  LET M == PathSet(hist)
+  IN RefinesWith(OutcomeA(hist), AllCode(AllAt(M, <<>>)), JoinWalksA(M, mode = "B"),
                  IF mode = "W" /\ M # {} THEN JoinPimsA(M) ELSE <<>>,
                  AllCode(AllOf(trie)), JoinWalksB(trie), JoinPimsB(trie))
 
